@@ -165,7 +165,7 @@ static spif_obj_t tk_build(int i)
     }
 }
 static const char *tk_bname(int i) { return TKB[i]; }
-static const char *TKM[] = { "eval()", "set_sep(new \";\")", "set_src(new \"x;y z\")", "done()", "set_src(NULL)" };
+static const char *TKM[] = { "eval()", "set_sep(new \";\")", "set_src(new \"x;y z\")", "done()", "set_src(NULL)", "set_src(NULL), then eval() (refused)" };
 static void tk_mut(spif_obj_t o, int j)
 {
     spif_tok_t t = SPIF_TOK(o);
@@ -175,6 +175,7 @@ static void tk_mut(spif_obj_t o, int j)
     case 2: spif_tok_set_src(t, spif_str_new_from_ptr((spif_charptr_t) "x;y z")); break;
     case 3: spif_tok_done(t); break;
     case 4: spif_tok_set_src(t, (spif_str_t) NULL); break;                 /* the setter deletes the old source; an eval is then refused */
+    case 5: spif_tok_set_src(t, (spif_str_t) NULL); spif_tok_eval(t); break;
     }
 }
 static const char *tk_mname(int j) { return TKM[j]; }
@@ -189,7 +190,7 @@ static void tk_obs(spif_obj_t o, char *b, size_t n)
 
 /* ------------------------------------------------------------------ url */
 static const char *URB[] = { "new()", "from_ptr(\"http://u:p@h:8/p?q\")", "from_ptr(\"h\")", "from_ptr(\"/path\")", "from_ptr(\"zz://host/x\")", "from_ptr(\"\")", "from_ptr(\"http://h:8/p\")+unparse",
-                             "from_ptr(\"h:8\")+set_host(new \"g\")+unparse", "from_ptr(\"h:8/p\")+set_host(new \"g\")", "from_ptr(\"u@h\")", "from_ptr(\"b\")" };
+                             "from_ptr(\"h:8\")+set_host(new \"g\")+unparse", "from_ptr(\"h:8/p\")+set_host(new \"g\")", "from_ptr(\"u@h\")", "from_ptr(\"b\")", "from_ptr(\"/pub/f\")+set_port(new \"21\") (a port without a host)" };
 static spif_obj_t ur_build(int i)
 {
     spif_url_t u;
@@ -204,6 +205,7 @@ static spif_obj_t ur_build(int i)
     case 7: u = spif_url_new_from_ptr((spif_charptr_t) "h:8"); spif_url_set_host(u, spif_str_new_from_ptr((spif_charptr_t) "g")); spif_url_unparse(u); return SPIF_OBJ(u);
     case 8: u = spif_url_new_from_ptr((spif_charptr_t) "h:8/p"); spif_url_set_host(u, spif_str_new_from_ptr((spif_charptr_t) "g")); return SPIF_OBJ(u);
     case 9: return SPIF_OBJ(spif_url_new_from_ptr((spif_charptr_t) "u@h"));
+    case 11: u = spif_url_new_from_ptr((spif_charptr_t) "/pub/f"); spif_url_set_port(u, spif_str_new_from_ptr((spif_charptr_t) "21")); return SPIF_OBJ(u);
     default: return SPIF_OBJ(spif_url_new_from_ptr((spif_charptr_t) "b"));
     }
 }
